@@ -285,9 +285,10 @@ def _(ctx):
         G = it.uf_cache[(g, 1)]
         spec_ = (s1 * G(s0) - s0 * G(s1)) / (s0 - s1)
         ctx.prove_ring(fn, [(last_path(ps, spec_)[1], spec_)])
-    # Ixyz: generic path of Ixy with x = s0/s2, y = s1/s2
+    # Iabc(a,b,c) = I2abc(a^2,b^2,c^2): generic path of Ixy with x = s0/s2, y = s1/s2 (s0 <= s1 <= s2 the sorted squares).  The PUBLIC function is the entry: whether
+    # the squared-argument helper Ixyz is a separate function or inlined is immaterial
     stubs = dict(ATOMS); stubs['sort'] = sorted_stub()
-    it, ps = run(ctx, 'Ixyz', z3.Reals('x y z'), [], stubs, feasibility=False)
+    it, ps = run(ctx, 'Iabc', z3.Reals('a b c'), [], stubs, feasibility=False)
     ln = it.uf_cache.get(('ln', 1))
     if ln is None:
         ctx.record('Ixyz', ERROR, 'B', 0, 'no logarithm on the generic path')
@@ -680,41 +681,50 @@ def _(ctx):
     # --- luv expansions
     lam = z3.Real('lam')
     it, ps = code_expr(ctx, 'luv', [lam, u, v], pre=pre)
-    if len(ps) != 3:
-        ctx.record('luv.paths', FAILED, 'B', 0, '%d paths (expected: v small / u small / generic)' % len(ps))
-        return
-    ctx.record('luv.paths', PROVED, 'B', 0, '3 paths')
+    ps = [p for p in ps if p[1] is not None and p[2] is None]
     def tup(r):
-        return r if isinstance(r, (list, tuple)) else r.items
-    (s0_, r0, _), (s1_, r1, _), (s2_, r2, _) = ps
-    r0, r1, r2 = [list(getattr(r, 'v', r)) if not isinstance(r, (list, tuple)) else list(r) for r in (r0, r1, r2)]
+        return list(getattr(r, 'v', r)) if not isinstance(r, (list, tuple)) else list(r)
     lam_s = sympy.Symbol('lam')
-    # generic
-    ok = zero(z2s(r2[0]) - (1 - lam_s + U - V) / 2) and zero(z2s(r2[1]) - (1 - lam_s - U + V) / 2)
-    ctx.record('luv.generic', PROVED if ok else FAILED, 'B', 0, '(a+, a-) == ((1-lambda+u-v)/2, (1-lambda-u+v)/2)')
-    # l00: bivariate Taylor at (0,0), all monomials u^i v^j with i,j <= 3
     def biv(expr, n):
         e = sympy.series(expr, U, 0, n + 1).removeO()
         e = sympy.series(sympy.expand(e), V, 0, n + 1).removeO()
         p = sympy.Poly(sympy.expand(e), U, V)
         return sum(c * U**i * V**j for (i, j), c in p.terms() if i <= n and j <= n)
     a_plus, a_minus = sp_alpha(U, V), sp_alpha(V, U)
-    # (the pair is used symmetrically by phi_pos -- ln x ln y, Li2 x + Li2 y -- so its order is immaterial: in this branch the code returns (a-, a+))
-    got = [sympy.expand(z2s(r0[0])), sympy.expand(z2s(r0[1]))]
-    want = [sympy.expand(biv(a_plus, 3)), sympy.expand(biv(a_minus, 3))]
-    okp = (got[0] == want[0] and got[1] == want[1]) or (got[0] == want[1] and got[1] == want[0])
-    ctx.record('luv.vsmall', PROVED if okp else FAILED, 'B', 0, 'l00(u,v), l00(v,u): all 16 coefficients u^i v^j, i,j <= 3, of {a+, a-}' +
-               ('' if okp else ': code %s / %s, definition %s / %s' % (got[0], got[1], want[0], want[1])), solver='sympy series')
-    # l0v / lv0: Taylor in u to order 3 at fixed v < 1 (sqrt((1-v)^2) = 1-v)
+    want00 = [sympy.expand(biv(a_plus, 3)), sympy.expand(biv(a_minus, 3))]
     A = sympy.Symbol('A', positive=True)
-    for idx, spec, nm in ((0, a_plus, 'l0v'), (1, a_minus, 'lv0')):
-        e = spec.subs(V, 1 - A)
-        ser = sympy.series(e, U, 0, 4).removeO()
-        want = sympy.Poly(sympy.expand(ser), U)
-        got = sympy.Poly(sympy.expand(sympy.together(z2s(r1[idx]).subs(V, 1 - A))), U)
-        bad = [k for k in range(4) if sympy.simplify(got.coeff_monomial(U**k) - want.coeff_monomial(U**k)) != 0]
-        ctx.record('luv.usmall.%d' % idx, FAILED if bad or got.degree() > 3 else PROVED, 'B', 0,
-                   '%s: coefficients of u^k, k <= 3, as functions of v%s' % (nm, '' if not bad else ' DIFFER at k=%s' % bad), solver='sympy series + simplification')
+    # the paths are classified by CONTENT (generic pair: contains lambda; l00 pair: polynomial in u and v; l0v/lv0: rational in v), never by position or count:
+    # a re-nesting of the conditions that reaches the same expression twice is the same contract
+    classes = {'generic': [], 'vsmall': [], 'usmall': []}
+    for k, (s_, r, _) in enumerate(ps):
+        r = tup(r)
+        e0, e1 = z2s(r[0]), z2s(r[1])
+        if lam_s in e0.free_symbols or lam_s in e1.free_symbols:
+            ok = zero(e0 - (1 - lam_s + U - V) / 2) and zero(e1 - (1 - lam_s - U + V) / 2)
+            classes['generic'].append((ok, '(a+, a-) == ((1-lambda+u-v)/2, (1-lambda-u+v)/2)'))
+            continue
+        got = [sympy.expand(e0), sympy.expand(e1)]
+        if all(g.is_polynomial(U, V) for g in got):
+            # l00: bivariate Taylor at (0,0), all monomials u^i v^j with i,j <= 3
+            # (the pair is used symmetrically by phi_pos -- ln x ln y, Li2 x + Li2 y -- so its order is immaterial: in this branch the code returns (a-, a+))
+            okp = (got[0] == want00[0] and got[1] == want00[1]) or (got[0] == want00[1] and got[1] == want00[0])
+            classes['vsmall'].append((okp, 'l00(u,v), l00(v,u): all 16 coefficients u^i v^j, i,j <= 3, of {a+, a-}' +
+                                      ('' if okp else ': code %s / %s, definition %s / %s' % (got[0], got[1], want00[0], want00[1]))))
+            continue
+        # l0v / lv0: Taylor in u to order 3 at fixed v < 1 (sqrt((1-v)^2) = 1-v)
+        for idx, spec, nm in ((0, a_plus, 'l0v'), (1, a_minus, 'lv0')):
+            e = spec.subs(V, 1 - A)
+            ser = sympy.series(e, U, 0, 4).removeO()
+            want = sympy.Poly(sympy.expand(ser), U)
+            gotp = sympy.Poly(sympy.expand(sympy.together((e0, e1)[idx].subs(V, 1 - A))), U)
+            bad = [kk for kk in range(4) if sympy.simplify(gotp.coeff_monomial(U**kk) - want.coeff_monomial(U**kk)) != 0]
+            classes['usmall'].append((not bad and gotp.degree() <= 3, '%s: coefficients of u^k, k <= 3, as functions of v%s' % (nm, '' if not bad else ' DIFFER at k=%s' % bad)))
+    ctx.record('luv.paths', PROVED if all(classes.values()) else FAILED, 'B', 0, 'regimes reached: %s (expected: v small / u small / generic)' % {k: len(v) for k, v in classes.items()})
+    for cname, gid in (('generic', 'luv.generic'), ('vsmall', 'luv.vsmall'), ('usmall', 'luv.usmall')):
+        res = classes[cname]
+        badc = [d for ok_, d in res if not ok_]
+        if res:
+            ctx.record(gid, FAILED if badc else PROVED, 'B', 0, badc[0] if badc else res[0][1] + (' (%d paths)' % len(res) if cname != 'usmall' else ''), solver='sympy series + ring normalisation')
     # --- phi_pos
     it, ps = code_expr(ctx, 'phi_pos', [u, v], pre=[u > 0, v > 0, u < v, v < 1], stubs=dict(ATOMS, luv=None) if False else ATOMS)
     ln, Li2, sq = it.uf_cache.get(('ln', 1)), it.uf_cache.get(('Li2', 1)), it.uf_cache.get(('sqrt', 1))
